@@ -489,12 +489,12 @@ def idEvs (X : SetOracle) (σ : Sched) : Nat → Path → Value → List Ev
 
 theorem transformKids_id (rec' : TRec) (ev : Path → Value → List Ev) (path : Path) :
     ∀ (cs : List (PathStep × Value)) (log : List Ev),
-      (∀ c ∈ cs, ∀ log path, rec' log path c.2 = (log ++ ev path c.2, .ok c.2)) →
+      (∀ c ∈ cs, ∀ log, rec' log (path ++ [c.1]) c.2 = (log ++ ev (path ++ [c.1]) c.2, .ok c.2)) →
       transformKids rec' log path cs = (log ++ idEvKids ev path cs, .ok (cs.map (·.2)))
   | [], log, _ => by simp [transformKids, idEvKids]
   | (s, c) :: rest, log, h => by
     simp only [transformKids, idEvKids]
-    rw [h (s, c) (by simp) log (path ++ [s])]
+    rw [h (s, c) (by simp) log]
     simp only
     rw [transformKids_id rec' ev path rest _ (fun c hc => h c (List.mem_cons_of_mem _ hc))]
     simp [List.append_assoc]
@@ -524,8 +524,10 @@ call returns every member as it is, the `switch` of `transform` returns the valu
 as it is, having visited the members in `ordKids` order. -/
 theorem rebuild_id {X : SetOracle} (hX : IterPerm X) {σ : Sched} (hσ : SchedOk σ) (rec' : TRec)
     (ev : Path → Value → List Ev) (v : Value) (hg : Good X v)
-    (ih : ∀ c ∈ kids X v, ∀ log path, rec' log path c.2 = (log ++ ev path c.2, .ok c.2))
-    (log : List Ev) (path : Path) :
+    (path : Path)
+    (ih : ∀ c ∈ kids X v, ∀ log, rec' log (path ++ [c.1]) c.2 =
+      (log ++ ev (path ++ [c.1]) c.2, .ok c.2))
+    (log : List Ev) :
     rebuild X σ rec' log path v = (log ++ idEvKids ev path (ordKids X σ path v), .ok v) := by
   by_cases hn : (v.isNull || !v.isKnown) = true
   · have hk : kids X v = [] := by simp [kids, hn]
@@ -660,8 +662,8 @@ theorem rebuild_id {X : SetOracle} (hX : IterPerm X) {σ : Sched} (hσ : SchedOk
         simp [hemp, this, schedKids_nil, idEvKids]
       · simp only [hemp, Bool.false_eq_true, if_false]
         have hperm := schedKids_perm ts vs (hσ path ns) hnd h1 htv
-        have ih' : ∀ c ∈ schedKids (σ path ns) (objKids ns ts vs), ∀ log path,
-            rec' log path c.2 = (log ++ ev path c.2, .ok c.2) :=
+        have ih' : ∀ c ∈ schedKids (σ path ns) (objKids ns ts vs), ∀ log,
+            rec' log (path ++ [c.1]) c.2 = (log ++ ev (path ++ [c.1]) c.2, .ok c.2) :=
           fun c hc => ih c (hperm.mem_iff.mp hc)
         rw [transformKids_id rec' ev path _ log ih']
         simp only
@@ -691,7 +693,7 @@ theorem transformFuel_id {X : SetOracle} (hX : IterPerm X) {σ : Sched} (hσ : S
     have hen : ∀ l, (postorder idCb).enter l path v = .ok v := fun _ => rfl
     have hex : ∀ l, (postorder idCb).exit l path v = .ok v := fun _ => rfl
     simp only [transformFuel, hen, idEvs]
-    rw [rebuild_id hX hσ _ (idEvs X σ f) v hg ih]
+    rw [rebuild_id hX hσ _ (idEvs X σ f) v hg path (fun c hc log => ih c hc log _)]
     simp only [hex]
     simp [List.append_assoc]
 
